@@ -30,7 +30,8 @@ def main():
                 print(r.stdout[-600:], r.stderr[-600:])
     finally:
         subprocess.run(['git', '-C', '/repo', 'checkout', '--', f])
-        subprocess.run(['rm', '-rf', '/verif/replays'])
+        subprocess.run(["rm", "-rf", "/verif/replays"])
+        subprocess.run(["git", "-C", "/verif", "checkout", "--", "evidence"])
     print('CAUGHT' if ok else 'MISSED')
     return 0 if ok else 1
 
